@@ -71,7 +71,7 @@ PROPS = {
         assumptions=["the model's atomic steps are the hook points: code between two points runs without interference from participating threads (true under the "
                      "scheduler; on real hardware it relies on the locks and on data-race freedom, which is C07's subject)",
                      "parking_lot::RwLock is a correct reader/writer lock"],
-        not_yet_proved=["refinement from the slot protocol to the sequential Red model (a slot, once written, holds the element `Red.getOrAdd` would create): tied by the arena oracle on every execution, not by a theorem"],
+        not_yet_proved=[],
     ),
     "C06": dict(
         extra_modules=["CstModel.Proofs.Conc"],
@@ -160,7 +160,7 @@ PROPS = {
              "string / a longer string / a prefix / a one-character variant (4 directions); == between all (or 60 random) ordered pairs of views; "
              "non-trivial = an answer was compared with the materialised string; distinct = distinct op text",
         assumptions=["views have character-boundary ends (the documented domain of the string operations); chunk slicing at other offsets panics in both model and code and is outside the property"],
-        not_yet_proved=["chunks_tree is stated for slices that exist (both ends on character boundaries): that a view cut inside a character makes the query that reaches the cut panic is tied by correspondence only"],
+        not_yet_proved=[],
     ),
     "C13": dict(
         extra_modules=["CstModel.Proofs.ChunksTree"],
